@@ -71,6 +71,7 @@ fn main() {
             hist::c04_family(&mut cx, &f);
             if f.name == "fam_union_find" {
                 hist::c04_uf_exhaustive(&mut cx, &f);
+                hist::c04_uf_multi_edge(&mut cx, &f);
             }
         }
         if !miri {
@@ -124,12 +125,17 @@ fn main() {
             "C04" => {
                 cx.rep.require(c(&cx, "c04_families") >= 26, "not every family ran its histories");
                 cx.rep.require(c(&cx, "c04_uf_exhaustive_histories") >= 1000, "union-find exhaustive histories missing");
+                cx.rep.require(c(&cx, "c04_uf_multi_edge_merges") >= 5000, "fewer than 5 000 merges of a multi-edge union-find delta (same item listed several times)");
+                cx.rep.require(c(&cx, "c04_uf_multi_edge_first_step_into_empty") >= 200, "fewer than 200 multi-edge deltas merged as the first step into an empty union-find");
+                cx.rep.require(c(&cx, "c04_uf_multi_edge_merges_via:UnionFind<VecMap>") > 0 && c(&cx, "c04_uf_multi_edge_merges_via:UnionFind<ArrayMap2>") > 0 && c(&cx, "c04_uf_multi_edge_merges_via:UnionFind<ArrayMap3>") > 0, "multi-edge deltas not merged through every Vec-/array-backed representation");
                 cx.rep.require(c(&cx, "c04_rho_cases") >= 8, "rho-shaped union-find cases did not run");
                 cx.rep.require(c(&cx, "c04_lattice_from_between_self_representations") >= 500, "too few LatticeFrom conversions");
                 cx.rep.require(c(&cx, "c04_ro_same:UnionFind<VecMap>") > 0, "read-only union-find representations never queried");
             }
             "C06" => {
-                cx.rep.require(c(&cx, "c06_families") >= 19, "not every Atomize type was driven");
+                cx.rep.require(c(&cx, "c06_families") >= 29, "not every Atomize type was driven");
+                cx.rep.require(c(&cx, "c06_values_with_withtop_some_inner_top") >= 10, "fewer than 10 values WithTop(Some(inner top)) atomized");
+                cx.rep.require(c(&cx, "c06_one_point_inner_families") >= 4, "wrappers of the one-point lattice () not atomized");
                 cx.rep.require(c(&cx, "c06_bottom_values") >= 30, "fewer than 30 bottom values atomized");
                 cx.rep.require(cx.rep.distinct_count() >= 1000, "fewer than 1000 values with >= 2 atoms");
             }
